@@ -44,6 +44,7 @@ type (
 	Interface           = net.Interface
 	HardwareAddr        = net.HardwareAddr
 	Flags               = net.Flags
+	Buffers             = net.Buffers
 )
 
 const (
